@@ -141,7 +141,7 @@ def static_event(pp, tid, A, irules, nrules, crules, mode, rt, via, shape="mods"
         r2 = pp.apply_static_mods(r1, **kw())
         as_ann = lambda x: pp.parse(x) if isinstance(x, str) else x
         return project.ann(as_ann(r1)), project.ann(as_ann(r2))
-    o, r = call(f)
+    o, r = call(f, watchdog=20.0)   # CPU seconds: a builder that piles up forms is reported, not waited for
     blank = anngen.empty("")
     return {"tid": tid, "k": "static", "A": A, "irules": irules, "nrules": nrules, "crules": crules, "mode": mode, "rt": rt,
             "via": via, "shape": shape, "out": o, "res": r[0] if o == "ret" else blank, "twice": r[1] if o == "ret" else blank,
@@ -159,10 +159,15 @@ def variable_event(pp, tid, A, irules, nrules, crules, max_mods, mode, rt, via, 
                                      nterm_mods=term_arg(nrules, lambda r: shaped_groups(pp, r["groups"], shape), tid),
                                      cterm_mods=term_arg(crules, lambda r: shaped_groups(pp, r["groups"], shape), tid + "c"),
                                      mode=mode, return_type=rt)
-        return [project.ann(pp.parse(x) if isinstance(x, str) else x) for x in res]
-    o, r = call(f)
+        return list(res)
+    # only the library call is timed (CPU seconds): an enumeration that explodes is stopped and logged as "hang" - whether
+    # that is a failure is the specification's call (Trace_ModBuilder!FormsBound); results too large to validate are dropped
+    o, r = call(f, watchdog=20.0)
+    big = o == "ret" and len(r) > 400
+    if o == "ret" and not big:
+        r = [project.ann(pp.parse(x) if isinstance(x, str) else x) for x in r]
     return {"tid": tid, "k": "variable", "A": A, "irules": irules, "nrules": nrules, "crules": crules, "maxMods": max_mods,
-            "mode": mode, "rt": rt, "via": via, "shape": shape, "out": o, "res": r if o == "ret" else []}
+            "mode": mode, "rt": rt, "via": via, "shape": shape, "out": o, "res": r if o == "ret" and not big else [], "big": big}
 
 
 def run(tier, seed, rep):
@@ -214,7 +219,7 @@ def run(tier, seed, rep):
                                       shape))
         else:
             evs.append(static_event(pp, f"s{i}", A, irules, nrules, crules, mode, rt, via, shape))
-    evs = [e for e in evs if len(e.get("res", [])) <= 400 or e["k"] == "static"]
+    evs = [e for e in evs if not e.get("big")]
     res = core.validate_traces("Trace_ModBuilder", evs, "C13", min_per_shard=60)
     rep.add_trace("builders", evs, res,
                   sig=lambda e: (e["k"], e["mode"], e["rt"], e["via"], e.get("maxMods"), len(e["A"]["seq"]),
